@@ -78,8 +78,8 @@ pub(crate) fn enable_active_connect(peer: &mut Peer, ch: mpsc::UnboundedSender<T
 
 fn plan(property: &str) -> BatchPlan {
     match property {
-        "C04" => BatchPlan { quick_runs: 3_000, thorough_runs: 300_000 },
-        _ => BatchPlan { quick_runs: 20_000, thorough_runs: 2_000_000 },
+        "C04" => BatchPlan { quick_runs: 10_000, thorough_runs: 300_000 },
+        _ => BatchPlan { quick_runs: 100_000, thorough_runs: 5_000_000 },
     }
 }
 
@@ -89,7 +89,7 @@ fn plan(property: &str) -> BatchPlan {
 pub(crate) fn verif_main(args: &[String]) -> i32 {
     let c18s = c18s::SubscribeInterleavings;
     let checks: Vec<&dyn Check> = vec![&c18s];
-    vcore::main_with(&checks, &|_p: &str| BatchPlan { quick_runs: 30_000, thorough_runs: 3_000_000 }, args)
+    vcore::main_with(&checks, &|_p: &str| BatchPlan { quick_runs: 100_000, thorough_runs: 3_000_000 }, args)
 }
 
 #[cfg(not(osrg_rustybgp_verif_shuttle))]
